@@ -52,7 +52,10 @@ def generate(rng, tier, index):
         return None
     m = sum(numel(g.shape[o]) for o in outs)
     rg = [leaf["name"] for leaf in spec["leaves"] if leaf["rg"]]
-    if rng.random() < 0.72:
+    r_in = rng.random()
+    if r_in < 0.03:
+        inputs = []  # the empty subset: nothing to differentiate, nothing may change
+    elif r_in < 0.72:
         k = rng.randint(1, len(rg))
         inputs = rng.sample(rg, k)
     else:
@@ -120,6 +123,11 @@ def execute(scn):
         viols.append(v)
         return {"violations": viols, "events": events, "stats": stats, "sig": None, "nontrivial": False}
     req = exp["inputs"]
+    if call.get("inputs") is not None and len(call["inputs"]) == 0:
+        stats["reach.empty_inputs"] = 1
+        for n in world.leaf_names:
+            if dep[n] is not None and (world.grad_array(n) is None or np.any(dep[n] != 0)):
+                viols.append({"clause": "deposit", "step": "main", "details": {"input": n, "problem": "empty `inputs` but a .grad changed"}, "key": {}})
     eff = seams.effective_order([world.t[n] for n in (call["inputs"] if call.get("inputs") is not None else req)])
     events.append(["effective_order", eff])
     if eff != sorted(eff):
